@@ -162,6 +162,13 @@ func main() {
 		ring := func(g fx.Ring) string { return "(mk_T_Ring " + intL(g.Buf) + " " + z(g.Head) + " " + z(g.N) + ")" }
 		ex("go_Ring_PushAll "+ring(rgBefore)+" "+intL(more), "("+z(dr)+", "+ring(rg)+")")
 		ex("go_Ring_Sum "+fuel+" "+ring(rg), "Some "+z(rg.Sum()))
+		ca, cb, cz := r.Intn(30)-10, r.Intn(30)-10, r.Intn(4)
+		cp2 := fx.Pt{X: r.Intn(9), Y: r.Intn(9), Tag: rb(2)}
+		if r.Intn(2) == 0 {
+			cp2.Tag = append([]byte{7}, cp2.Tag...)
+		}
+		cx, cy, cq := fx.Clamp3(ca, cb, cz, fx.Pt{X: cp2.X, Y: cp2.Y, Tag: append([]byte{}, cp2.Tag...)})
+		ex("go_Clamp3 "+z(ca)+" "+z(cb)+" "+z(cz)+" "+pt(cp2), "("+z(cx)+", "+z(cy)+", "+pt(cq)+")")
 		ma, mb := r.Uint32(), uint8(r.Intn(256))
 		ex("go_Mix "+nn(uint64(ma))+" "+nn(uint64(mb)), nn(uint64(fx.Mix(ma, mb))))
 	}
